@@ -128,7 +128,7 @@ Qed.
 Theorem link_builder_store LF sid tk built : 1 <= LF -> clean tk -> NoDup built ->
   let s' := fst (insert_after LF (empty_store sid tk) None built) in
   insert_after LF (empty_store sid tk) None built = (s', Ok tt) /\ Inv s' /\ abs s' = built /\
-  (forall k1 k2 a b, nth_error built k1 = Some a -> nth_error built k2 = Some b -> (k1 <= k2)%nat ->
+  (forall k1 k2 a b, nth_error built k1 = Some a -> nth_error built k2 = Some b ->
      iter_range s' a b = Ok (firstn (k2 + 1 - k1) (skipn k1 built))).
 Proof.
   intros HLF Hc ND s'. destruct (insert_after LF (empty_store sid tk) None built) as [s1 r1] eqn:H. cbn [fst] in s'. subst s'.
@@ -137,5 +137,5 @@ Proof.
   destruct (insert_after_spec LF (empty_store sid tk) built None 0 s1 r1 HLF I0 eq_refl ND Hfresh H) as (-> & I' & Ea & _).
   rewrite E0 in Ea. unfold list_splice in Ea. cbn in Ea. rewrite app_nil_r in Ea.
   split; [reflexivity|]. split; [exact I'|]. split; [exact Ea|].
-  intros k1 k2 a b Ha Hb Hk. rewrite <- Ea in *. apply (proj1 (proj2 (proj2 (proj2 (proj2 (proj2 (observers_spec s1 I'))))))); assumption.
+  intros k1 k2 a b Ha Hb. rewrite <- Ea in *. apply (proj1 (proj2 (proj2 (proj2 (proj2 (proj2 (observers_spec s1 I'))))))); assumption.
 Qed.
